@@ -833,11 +833,13 @@ impl<'a, 'b> G<'a, 'b> {
                 1 => {
                     let e = match self.c.pick(6) {
                         // `await` / `yield` children where the enclosing function allows them
-                        _ if self.in_async && self.c.chance(1, 3) => {
+                        // (only as direct children of the function's root element: deeper JSX may
+                        // sit inside a nested arrow, where they would be illegal in the input)
+                        _ if self.in_async && depth == 2 && self.c.chance(1, 2) => {
                             self.f.unusual("await-or-yield-child");
                             if self.c.bool() { "await f()".to_string() } else { "f(await g(1))".to_string() }
                         }
-                        _ if self.in_generator && self.c.chance(1, 3) => {
+                        _ if self.in_generator && depth == 2 && self.c.chance(1, 2) => {
                             self.f.unusual("await-or-yield-child");
                             "yield 1".to_string()
                         }
